@@ -41,27 +41,28 @@ Proof. intros Hn. split; [auto|]. intros h. unfold lc, emit; simpl. rewrite Hn. 
 
 Lemma nm_reg v : nomark (h_reg v). Proof. intros x; auto. Qed.
 Lemma nm_handling v : nomark (h_handling v). Proof. intros x; auto. Qed.
-Lemma nm_pools v : nomark (h_pools v). Proof. intros x; auto. Qed.
 Lemma nm_present v : nomark (h_present v). Proof. intros x; auto. Qed.
 Lemma nm_up0 : nomark (h_up 0). Proof. intros x; simpl; discriminate. Qed.
 Lemma nm_up2 : nomark (h_up 2). Proof. intros x; simpl; discriminate. Qed.
 Lemma nm_comp f g : nomark f -> nomark g -> nomark (fun x => f (g x)).
 Proof. intros Hf Hg x H. auto. Qed.
-Lemma nm_pools_fun (p : hst -> nat -> nat) : nomark (fun x => h_pools (p x) x).
-Proof. intros x; auto. Qed.
 
 Lemma Q_cancel_opt s o : Q s (cancel_opt s o).
 Proof. destruct o; simpl; [apply Q_same; reflexivity | apply Q_refl]. Qed.
 Lemma Q_enq s ts : Q s (enq s ts). Proof. apply Q_same; reflexivity. Qed.
 Lemma Q_remove_pools s h cb : Q s (remove_pools s h cb).
-Proof. unfold remove_pools. eapply Q_trans; [apply Q_updh, nm_pools | apply Q_enq]. Qed.
+Proof. unfold remove_pools. eapply Q_trans; [apply (Q_same s (upd_pools s h (fun _ => 0))); reflexivity | apply Q_enq]. Qed.
 Lemma Q_add_pools s h a g : Q s (add_pools s h a g).
-Proof. unfold add_pools. destruct (ign (hosts s h)); [apply Q_refl | apply Q_enq]. Qed.
-Lemma Q_ucp_all s : Q s (ucp_all s). Proof. apply Q_enq. Qed.
+Proof. unfold add_pools. destruct (ignd s h); [apply Q_refl | apply Q_enq]. Qed.
+Lemma Q_ucp_one s sid : Q s (ucp_one s sid).
+Proof. unfold ucp_one. eapply Q_trans; [apply (Q_same s (set_epools s (ucp_pools s sid))); reflexivity | apply Q_enq]. Qed.
+Lemma Q_ucp_fold l : forall s, Q s (fold_left ucp_one l s).
+Proof. induction l; simpl; intros s; [apply Q_refl|]. eapply Q_trans; [apply Q_ucp_one | apply IHl]. Qed.
+Lemma Q_ucp_all s : Q s (ucp_all s). Proof. apply Q_ucp_fold. Qed.
 
 Lemma Q_start s h a : Q s (start_reconnector s h a).
 Proof.
-  unfold start_reconnector. destruct (ign (hosts s h)); [apply Q_refl|].
+  unfold start_reconnector. destruct (ignd s h); [apply Q_refl|].
   destruct (negb (present (hosts s h) =? 1)); [apply Q_refl|].
   eapply Q_trans; [| apply Q_same; reflexivity].
   eapply Q_trans; [| apply Q_cancel_opt].
@@ -105,9 +106,11 @@ Lemma Q_set_timers s v : Q s (set_timers s v). Proof. apply Q_same; reflexivity.
 Lemma Q_set_nrecs s v : Q s (set_nrecs s v). Proof. apply Q_same; reflexivity. Qed.
 Lemma Q_updr s r f : Q s (updr s r f). Proof. apply Q_same; reflexivity. Qed.
 Lemma Q_set_probes s v : Q s (set_probes s v). Proof. apply Q_same; reflexivity. Qed.
+Lemma Q_set_epools s v : Q s (set_epools s v). Proof. apply Q_same; reflexivity. Qed.
+Lemma Q_set_eign s v : Q s (set_eign s v). Proof. apply Q_same; reflexivity. Qed.
+Lemma Q_upd_pools s h f : Q s (upd_pools s h f). Proof. apply Q_same; reflexivity. Qed.
 
-Ltac nm := first [apply nm_reg | apply nm_handling | apply nm_pools | apply nm_present | apply nm_up0 | apply nm_up2
-                 | apply nm_pools_fun
+Ltac nm := first [apply nm_reg | apply nm_handling | apply nm_present | apply nm_up0 | apply nm_up2
                  | apply nm_comp; first [apply nm_reg | apply nm_handling | apply nm_up0 | apply nm_up2 | apply nm_present] ].
 Ltac qstep l := eapply Q_trans; [| apply l].
 Ltac q := lazymatch goal with
@@ -128,6 +131,10 @@ Ltac q := lazymatch goal with
   | |- Q _ (set_nrecs _ _) => qstep Q_set_nrecs; q
   | |- Q _ (updr _ _ _) => qstep Q_updr; q
   | |- Q _ (set_probes _ _) => qstep Q_set_probes; q
+  | |- Q _ (set_epools _ _) => qstep Q_set_epools; q
+  | |- Q _ (set_eign _ _) => qstep Q_set_eign; q
+  | |- Q _ (upd_pools _ _ _) => qstep Q_upd_pools; q
+  | |- Q _ (ucp_one _ _) => qstep Q_ucp_one; q
   end.
 
 Lemma G_on_up s h : G s (on_up s h).
@@ -152,7 +159,7 @@ Lemma G_on_add s h : G s (on_add s h).
 Proof.
   unfold on_add.
   assert (H0 : Q s (emit s (NP 2 h))) by q.
-  destruct (ign (hosts (emit s (NP 2 h)) h)).
+  destruct (ignd (emit s (NP 2 h)) h).
   - eapply Q_G_trans; [exact H0 | apply G_finalize_add].
   - match goal with |- G s (if ?c then ?a else _) => assert (Ha : Q s a) by q; destruct c end.
     + apply Q_G; exact Ha.
@@ -164,7 +171,7 @@ Proof. unfold on_remove. q. Qed.
 
 Lemma Q_on_down_task s h a e : Q s (on_down_task s h a e).
 Proof.
-  unfold on_down_task. destruct (negb (ign (hosts s h)) && connected s h); [apply Q_refl|].
+  unfold on_down_task. destruct (negb (ignd s h) && connected s h); [apply Q_refl|].
   match goal with |- Q s (if ?c then _ else _) => destruct c end; q.
 Qed.
 
@@ -217,11 +224,11 @@ Proof. unfold probe_start. destruct (rcanc (recs s r)); q. Qed.
 
 Lemma G_step_ s e : G s (step_ s e).
 Proof.
-  destruct e; simpl.
+  destruct e as [h|h|h|h|h|k o|k o|k|j o|e0 b]; simpl.
   - destruct (known s h); apply Q_G; q.
   - destruct (known s h); apply Q_G; q.
   - destruct (known s h); [apply G_on_up | apply Q_G, Q_refl].
-  - destruct (present (hosts s h) =? 0); [| apply Q_G, Q_refl].
+  - destruct ((present (hosts s h) =? 0) && ((h <? neps s) || (present (hosts s (h - neps s)) =? 2))); [| apply Q_G, Q_refl].
     eapply Q_G_trans; [| apply G_on_add]. q.
   - destruct (present (hosts s h) =? 1); apply Q_G; [apply Q_on_remove | apply Q_refl].
   - destruct (nth_error (timers s) k); [| apply Q_G, Q_refl].
@@ -232,6 +239,7 @@ Proof.
     apply Q_G. eapply Q_trans; [| apply Q_probe_start]. q.
   - destruct (nth_error (probes s) j); [| apply Q_G, Q_refl].
     eapply Q_G_trans; [| apply G_probe_finish]. q.
+  - apply Q_G. q.
 Qed.
 
 Lemma lc_rev h l : lc h (rev l) = lc h l.
